@@ -199,6 +199,7 @@ pub fn search(seed: u64, n: u64) {
         // path sets as in C01 (one operand, or both operands side by side when they do not overlap is not required: one set)
         let pair = gen_pair(&mut rng);
         let (paths, kind) = if rng.b() { (pair.a, pair.kind_a) } else { (pair.b, pair.kind_b) };
+        let paths = with_teardrop(&mut rng, paths, &mut stats);
         let (w, h) = [(100, 100), (100, 100), (80, 100), (100, 64), (128, 128)][rng.i(5) as usize];
         stats.count(&format!("kind.{}", kind));
         stats.count(&format!("size.{}x{}", w, h));
@@ -255,6 +256,23 @@ fn corr_scan(stats: &mut Stats, paths: &Vec<P>, width: usize, height: usize, pos
     stats.count(&format!("{}.ranges_{}", if column { "col" } else { "row" }, got.len().min(4)));
     if paths.len() > 1 { stats.count("scene.several_subpaths"); }
     println!("{}", line);
+}
+
+/// a closed sub-path made of ONE cubic whose start and end coincide (a teardrop / loop): not "tiny", although its end points are the same
+fn teardrop(rng: &mut Rng) -> P {
+    let tip = Coord2(rng.r(20.0, 80.0), rng.r(20.0, 80.0));
+    let a = rng.r(0.0, std::f64::consts::TAU);
+    let (r, spread) = (rng.r(15.0, 45.0), rng.r(0.4, 1.1));
+    let c1 = tip + Coord2((a - spread).cos(), (a - spread).sin()) * r;
+    let c2 = tip + Coord2((a + spread).cos(), (a + spread).sin()) * r;
+    if rng.b() { (tip, vec![(c1, c2, tip)]) } else { (tip, vec![(c2, c1, tip)]) }
+}
+
+/// with probability 1/5 the scene gets a teardrop: alone, as an extra sub-path, or (inside a big rectangle) as a hole
+fn with_teardrop(rng: &mut Rng, paths: Vec<P>, stats: &mut Stats) -> Vec<P> {
+    if rng.i(5) != 0 { return paths; }
+    stats.count("scene.with_teardrop");
+    match rng.i(3) { 0 => vec![teardrop(rng)], 1 => { let mut p = paths; p.push(teardrop(rng)); p }, _ => vec![rect(5.0, 5.0, 95.0, 95.0), teardrop(rng)] }
 }
 
 /// straight-edged diamond (vertices on the axes through the centre), started at its left vertex
@@ -366,6 +384,7 @@ pub fn corr(seed: u64, n: u64) {
                 let pair = gen_pair(&mut rng);
                 let (mut paths, kind) = if rng.b() { (pair.a, pair.kind_a) } else { (pair.b, pair.kind_b) };
                 if rng.i(3) == 0 { let other = gen_pair(&mut rng); paths.extend(other.a); }
+                let paths = with_teardrop(&mut rng, paths, &mut stats);
                 let (w, h) = [(100, 100), (80, 100), (100, 64), (128, 128)][rng.i(4) as usize];
                 stats.count(&format!("scene.kind.{}", kind));
                 let cs: Vec<Vec<Cubic>> = paths.iter().map(cubics).collect();
